@@ -168,7 +168,7 @@ package smtp
 //@   ensures c.finals == old(c.finals) + (c.lastCode >= 300 && c.lastCode < 400 ? 0 : 1)
 
 //@ contract (*Conn).handleGreet(c, enhanced, arg)
-//@   prop C03 C04 C08 C12
+//@   prop C03 C04 C07 C08 C12
 //@   requires connInv(c) && !c.closed
 //@   modifies c.helo, c.session, c.bdatPipe, c.bdatStatus, c.bytesReceived, c.fromReceived, c.recipients, c.replies, c.finals, c.lastCode, c.cbNew, c.cbReset, c.bdatPipe.state
 //@   before Backend.NewSession: @C03 greeting-name-visible: c.helo == domain && domain != ""
@@ -183,7 +183,8 @@ package smtp
 //@   before fmt.Sprintf: @C12 configured-values-advertised: ($0 == "SIZE %v" ==> asref($1[0]) == c.server.MaxMessageBytes) && ($0 == "LIMITS RCPTMAX=%v" ==> asref($1[0]) == c.server.MaxRecipients)
 //@   ensures inv: connInv(c) && !c.closed
 //@   ensures @C04 one-reply: c.replies == old(c.replies) + 1 && c.finals == old(c.finals) + 1
-//@   ensures @C03 regreeting-ends-transaction: old(c.session) != nil && c.helo != old(c.helo) ==> !c.fromReceived && len(c.recipients) == 0 && c.bdatPipe == nil
+//@   ensures @C03,C07 regreeting-ends-transaction: old(c.session) != nil && c.lastCode == 250 ==> !c.fromReceived && len(c.recipients) == 0 && c.bdatPipe == nil && c.bdatStatus == nil && c.bytesReceived == 0
+//@   ensures @C07 regreeting-aborts-an-open-transfer: old(c.bdatPipe) != nil && c.lastCode == 250 ==> old(c.bdatPipe).state != 0 && (old(old(c.bdatPipe).state) == 0 ==> old(c.bdatPipe).state == 1)
 //@   ensures @C03 greeted-means-session: c.helo != "" ==> c.session != nil
 //@   ensures @C08 session-kept-or-created: old(c.session) != nil ==> c.session == old(c.session) && c.cbNew == old(c.cbNew)
 //@   ensures @C08 no-logout: c.cbLogout == old(c.cbLogout)
@@ -194,7 +195,7 @@ package smtp
 //@   ensures err == nil ==> domain != ""
 
 //@ contract (*Conn).handleMail(c, arg)
-//@   prop C03 C04 C06 C08 C11 C12
+//@   prop C03 C04 C06 C08 C11 C12 C14
 //@   requires connInv(c) && !c.closed
 //@   modifies c.binarymime, c.fromReceived, c.replies, c.finals, c.lastCode, c.cbMail
 //@   ensures inv: connInv(c) && !c.closed
@@ -203,43 +204,43 @@ package smtp
 //@   ensures @C03 at-most-one-callback: c.cbMail == old(c.cbMail) || c.cbMail == old(c.cbMail) + 1
 //@   ensures @C03 accepted-only-by-backend: c.fromReceived && !old(c.fromReceived) ==> c.cbMail == old(c.cbMail) + 1 && c.lastCode == 250
 //@   ensures @C03 refused-without-callback-is-5xx: c.cbMail == old(c.cbMail) ==> c.lastCode >= 500 && c.lastCode <= 599
-//@   before Session.Mail: @C11 mailbox-as-parsed-from-this-line: $1 == resultof("(*parser).parseReversePath", 1, 1) && $1 == from
-//@   before Session.Mail: @C11 fresh-options-object: $2 == opts && !wasalloc($2)
-//@   before Session.Mail: @C11 size-is-the-decoded-value-or-zero: (has(args, "SIZE") ==> $2.Size == puVal(args["SIZE"], 10)) && (!has(args, "SIZE") ==> $2.Size == 0)
-//@   before Session.Mail: @C11 flags-set-iff-present: ($2.UTF8 == has(args, "SMTPUTF8")) && ($2.RequireTLS == has(args, "REQUIRETLS"))
-//@   before Session.Mail: @C11 body-is-the-upper-cased-value-or-empty: (has(args, "BODY") ==> $2.Body == upperOf(args["BODY"])) && (!has(args, "BODY") ==> $2.Body == "")
-//@   before Session.Mail: @C11 ret-is-the-upper-cased-value-or-empty: (has(args, "RET") ==> $2.Return == upperOf(args["RET"])) && (!has(args, "RET") ==> $2.Return == "")
-//@   before Session.Mail: @C11 envid-is-the-decoded-value-or-empty: (has(args, "ENVID") ==> $2.EnvelopeID == xtextDec(args["ENVID"])) && (!has(args, "ENVID") ==> $2.EnvelopeID == "")
-//@   before Session.Mail: @C11 auth-set-iff-present: ($2.Auth != nil) == has(args, "AUTH")
-//@   before Session.Mail: @C11 path-was-accepted-by-the-parser: resultof("(*parser).parseReversePath", 1, 2) == nil && resultof("parseArgs", 1, 2) == nil
-//@   before Session.Mail: @C11 size-was-well-formed: has(args, "SIZE") ==> puOK(args["SIZE"], 10, 32)
-//@   before Session.Mail: @C11 body-value-is-a-known-one: has(args, "BODY") ==> upperOf(args["BODY"]) == "7BIT" || upperOf(args["BODY"]) == "8BITMIME" || upperOf(args["BODY"]) == "BINARYMIME"
-//@   before Session.Mail: @C11 ret-value-is-a-known-one: has(args, "RET") ==> upperOf(args["RET"]) == "FULL" || upperOf(args["RET"]) == "HDRS"
-//@   before Session.Mail: @C11 envid-was-well-formed: has(args, "ENVID") ==> xtextDecOK(args["ENVID"]) && xtextDec(args["ENVID"]) != "" && printableASCII(xtextDec(args["ENVID"]))
-//@   before Session.Mail: @C11 auth-was-well-formed: has(args, "AUTH") ==> xtextDecOK(args["AUTH"]) && xtextDec(args["AUTH"]) != "" && (xtextDec(args["AUTH"]) == "<>" ==> deref($2.Auth) == "")
-//@   before Session.Mail: @C11 only-known-parameters: forall k: string :: has(args, k) ==> k == "SIZE" || k == "SMTPUTF8" || k == "REQUIRETLS" || k == "BODY" || k == "RET" || k == "ENVID" || k == "AUTH"
+//@   before Session.Mail: @C11,C14 mailbox-as-parsed-from-this-line: $1 == resultof("(*parser).parseReversePath", 1, 1) && $1 == from
+//@   before Session.Mail: @C11,C14 fresh-options-object: $2 == opts && !wasalloc($2)
+//@   before Session.Mail: @C11,C14 size-is-the-decoded-value-or-zero: (has(args, "SIZE") ==> $2.Size == puVal(args["SIZE"], 10)) && (!has(args, "SIZE") ==> $2.Size == 0)
+//@   before Session.Mail: @C11,C14 flags-set-iff-present: ($2.UTF8 == has(args, "SMTPUTF8")) && ($2.RequireTLS == has(args, "REQUIRETLS"))
+//@   before Session.Mail: @C11,C14 body-is-the-upper-cased-value-or-empty: (has(args, "BODY") ==> $2.Body == upperOf(args["BODY"])) && (!has(args, "BODY") ==> $2.Body == "")
+//@   before Session.Mail: @C11,C14 ret-is-the-upper-cased-value-or-empty: (has(args, "RET") ==> $2.Return == upperOf(args["RET"])) && (!has(args, "RET") ==> $2.Return == "")
+//@   before Session.Mail: @C11,C14 envid-is-the-decoded-value-or-empty: (has(args, "ENVID") ==> $2.EnvelopeID == xtextDec(args["ENVID"])) && (!has(args, "ENVID") ==> $2.EnvelopeID == "")
+//@   before Session.Mail: @C11,C14 auth-set-iff-present: ($2.Auth != nil) == has(args, "AUTH")
+//@   before Session.Mail: @C11,C14 path-was-accepted-by-the-parser: resultof("(*parser).parseReversePath", 1, 2) == nil && resultof("parseArgs", 1, 2) == nil
+//@   before Session.Mail: @C11,C14 size-was-well-formed: has(args, "SIZE") ==> puOK(args["SIZE"], 10, 32)
+//@   before Session.Mail: @C11,C14 body-value-is-a-known-one: has(args, "BODY") ==> upperOf(args["BODY"]) == "7BIT" || upperOf(args["BODY"]) == "8BITMIME" || upperOf(args["BODY"]) == "BINARYMIME"
+//@   before Session.Mail: @C11,C14 ret-value-is-a-known-one: has(args, "RET") ==> upperOf(args["RET"]) == "FULL" || upperOf(args["RET"]) == "HDRS"
+//@   before Session.Mail: @C11,C14 envid-was-well-formed: has(args, "ENVID") ==> xtextDecOK(args["ENVID"]) && xtextDec(args["ENVID"]) != "" && printableASCII(xtextDec(args["ENVID"]))
+//@   before Session.Mail: @C11,C14 auth-was-well-formed: has(args, "AUTH") ==> xtextDecOK(args["AUTH"]) && xtextDec(args["AUTH"]) != "" && (xtextDec(args["AUTH"]) == "<>" ==> deref($2.Auth) == "")
+//@   before Session.Mail: @C11,C14 only-known-parameters: forall k: string :: has(args, k) ==> k == "SIZE" || k == "SMTPUTF8" || k == "REQUIRETLS" || k == "BODY" || k == "RET" || k == "ENVID" || k == "AUTH"
 //@   before (*Conn).writeResponse: @C12 refused-504-only-if-disabled: $1 == 504 ==> (key == "SMTPUTF8" && !c.server.EnableSMTPUTF8) || (key == "REQUIRETLS" && !c.server.EnableREQUIRETLS) || (key == "BODY" && !c.server.EnableBINARYMIME) || ((key == "RET" || key == "ENVID") && !c.server.EnableDSN)
 //@   loop 1:
 //@     invariant opts != nil && !old(alloc(opts))
 //@     invariant c.replies == old(c.replies) && c.cbMail == old(c.cbMail) && c.fromReceived == old(c.fromReceived)
 //@     invariant @C06 size-within-limit: c.server.MaxMessageBytes > 0 ==> opts.Size <= c.server.MaxMessageBytes
 //@     invariant @C12 only-enabled-extensions: (opts.UTF8 ==> c.server.EnableSMTPUTF8) && (opts.RequireTLS ==> c.server.EnableREQUIRETLS) && (opts.Body == "BINARYMIME" ==> c.server.EnableBINARYMIME) && (opts.Return != "" || opts.EnvelopeID != "" ==> c.server.EnableDSN)
-//@     invariant @C11 size: (itvisited("SIZE") ==> opts.Size == puVal(args["SIZE"], 10)) && (!itvisited("SIZE") ==> opts.Size == 0)
-//@     invariant @C11 flags: opts.UTF8 == itvisited("SMTPUTF8") && opts.RequireTLS == itvisited("REQUIRETLS")
-//@     invariant @C11 body: (itvisited("BODY") ==> opts.Body == upperOf(args["BODY"])) && (!itvisited("BODY") ==> opts.Body == "")
-//@     invariant @C11 ret: (itvisited("RET") ==> opts.Return == upperOf(args["RET"])) && (!itvisited("RET") ==> opts.Return == "")
-//@     invariant @C11 envid: (itvisited("ENVID") ==> opts.EnvelopeID == xtextDec(args["ENVID"])) && (!itvisited("ENVID") ==> opts.EnvelopeID == "")
-//@     invariant @C11 auth: (opts.Auth != nil) == itvisited("AUTH")
-//@     invariant @C11 sizeok: itvisited("SIZE") ==> puOK(args["SIZE"], 10, 32)
-//@     invariant @C11 bodyok: itvisited("BODY") ==> upperOf(args["BODY"]) == "7BIT" || upperOf(args["BODY"]) == "8BITMIME" || upperOf(args["BODY"]) == "BINARYMIME"
-//@     invariant @C11 retok: itvisited("RET") ==> upperOf(args["RET"]) == "FULL" || upperOf(args["RET"]) == "HDRS"
-//@     invariant @C11 envidok: itvisited("ENVID") ==> xtextDecOK(args["ENVID"]) && xtextDec(args["ENVID"]) != "" && printableASCII(xtextDec(args["ENVID"]))
-//@     invariant @C11 authok: itvisited("AUTH") ==> xtextDecOK(args["AUTH"]) && xtextDec(args["AUTH"]) != "" && opts.Auth != nil && (xtextDec(args["AUTH"]) == "<>" ==> deref(opts.Auth) == "")
-//@     invariant @C11 known: forall k: string :: itvisited(k) ==> k == "SIZE" || k == "SMTPUTF8" || k == "REQUIRETLS" || k == "BODY" || k == "RET" || k == "ENVID" || k == "AUTH"
+//@     invariant @C11,C14 size: (itvisited("SIZE") ==> opts.Size == puVal(args["SIZE"], 10)) && (!itvisited("SIZE") ==> opts.Size == 0)
+//@     invariant @C11,C14 flags: opts.UTF8 == itvisited("SMTPUTF8") && opts.RequireTLS == itvisited("REQUIRETLS")
+//@     invariant @C11,C14 body: (itvisited("BODY") ==> opts.Body == upperOf(args["BODY"])) && (!itvisited("BODY") ==> opts.Body == "")
+//@     invariant @C11,C14 ret: (itvisited("RET") ==> opts.Return == upperOf(args["RET"])) && (!itvisited("RET") ==> opts.Return == "")
+//@     invariant @C11,C14 envid: (itvisited("ENVID") ==> opts.EnvelopeID == xtextDec(args["ENVID"])) && (!itvisited("ENVID") ==> opts.EnvelopeID == "")
+//@     invariant @C11,C14 auth: (opts.Auth != nil) == itvisited("AUTH")
+//@     invariant @C11,C14 sizeok: itvisited("SIZE") ==> puOK(args["SIZE"], 10, 32)
+//@     invariant @C11,C14 bodyok: itvisited("BODY") ==> upperOf(args["BODY"]) == "7BIT" || upperOf(args["BODY"]) == "8BITMIME" || upperOf(args["BODY"]) == "BINARYMIME"
+//@     invariant @C11,C14 retok: itvisited("RET") ==> upperOf(args["RET"]) == "FULL" || upperOf(args["RET"]) == "HDRS"
+//@     invariant @C11,C14 envidok: itvisited("ENVID") ==> xtextDecOK(args["ENVID"]) && xtextDec(args["ENVID"]) != "" && printableASCII(xtextDec(args["ENVID"]))
+//@     invariant @C11,C14 authok: itvisited("AUTH") ==> xtextDecOK(args["AUTH"]) && xtextDec(args["AUTH"]) != "" && opts.Auth != nil && (xtextDec(args["AUTH"]) == "<>" ==> deref(opts.Auth) == "")
+//@     invariant @C11,C14 known: forall k: string :: itvisited(k) ==> k == "SIZE" || k == "SMTPUTF8" || k == "REQUIRETLS" || k == "BODY" || k == "RET" || k == "ENVID" || k == "AUTH"
 //@     invariant args != nil && (forall k: string :: itvisited(k) ==> has(args, k))
 
 //@ contract (*Conn).handleRcpt(c, arg)
-//@   prop C03 C04 C08 C11 C12
+//@   prop C03 C04 C08 C11 C12 C14
 //@   requires connInv(c) && !c.closed
 //@   modifies c.recipients, c.recipients[**], c.replies, c.finals, c.lastCode, c.cbRcpt
 //@   ensures inv: connInv(c) && !c.closed
@@ -250,26 +251,26 @@ package smtp
 //@   ensures @C03 limit-refused-without-callback: c.server.MaxRecipients > 0 && len(old(c.recipients)) >= c.server.MaxRecipients ==> c.cbRcpt == old(c.cbRcpt)
 //@   ensures @C03 refused-without-callback-is-4xx-5xx: c.cbRcpt == old(c.cbRcpt) ==> c.lastCode >= 400 && c.lastCode <= 599
 //@   before (*Conn).writeResponse: @C12 refused-504-only-if-disabled: $1 == 504 ==> ((key == "NOTIFY" || key == "ORCPT") && !c.server.EnableDSN) || (key == "RRVS" && !c.server.EnableRRVS)
-//@   before Session.Rcpt: @C11 mailbox-as-parsed-from-this-line: $1 == resultof("(*parser).parsePath", 1, 1) && $1 == recipient
-//@   before Session.Rcpt: @C11 path-was-accepted-by-the-parser: resultof("(*parser).parsePath", 1, 2) == nil && resultof("parseArgs", 1, 2) == nil
-//@   before Session.Rcpt: @C11 fresh-options-object: $2 == opts && !wasalloc($2)
-//@   before Session.Rcpt: @C11 orcpt-is-the-decoded-value-or-empty: (has(args, "ORCPT") ==> taOK(args["ORCPT"]) && $2.OriginalRecipientType == taType(args["ORCPT"]) && $2.OriginalRecipient == taAddr(args["ORCPT"]) && taAddr(args["ORCPT"]) != "") && (!has(args, "ORCPT") ==> $2.OriginalRecipientType == "" && $2.OriginalRecipient == "")
-//@   before Session.Rcpt: @C11 rrvs-is-the-decoded-time-or-zero: (has(args, "RRVS") ==> rrvsOK(args["RRVS"]) && $2.RequireRecipientValidSince == rrvsVal(args["RRVS"])) && (!has(args, "RRVS") ==> $2.RequireRecipientValidSince == zeroof("time.Time"))
-//@   before Session.Rcpt: @C11 notify-is-the-upper-cased-list-or-empty: (has(args, "NOTIFY") ==> notifyIs($2.Notify, args["NOTIFY"]) && notifySetOK($2.Notify)) && (!has(args, "NOTIFY") ==> len($2.Notify) == 0)
-//@   before Session.Rcpt: @C11 only-known-parameters: forall k: string :: has(args, k) ==> k == "NOTIFY" || k == "ORCPT" || k == "RRVS"
+//@   before Session.Rcpt: @C11,C14 mailbox-as-parsed-from-this-line: $1 == resultof("(*parser).parsePath", 1, 1) && $1 == recipient
+//@   before Session.Rcpt: @C11,C14 path-was-accepted-by-the-parser: resultof("(*parser).parsePath", 1, 2) == nil && resultof("parseArgs", 1, 2) == nil
+//@   before Session.Rcpt: @C11,C14 fresh-options-object: $2 == opts && !wasalloc($2)
+//@   before Session.Rcpt: @C11,C14 orcpt-is-the-decoded-value-or-empty: (has(args, "ORCPT") ==> taOK(args["ORCPT"]) && $2.OriginalRecipientType == taType(args["ORCPT"]) && $2.OriginalRecipient == taAddr(args["ORCPT"]) && taAddr(args["ORCPT"]) != "") && (!has(args, "ORCPT") ==> $2.OriginalRecipientType == "" && $2.OriginalRecipient == "")
+//@   before Session.Rcpt: @C11,C14 rrvs-is-the-decoded-time-or-zero: (has(args, "RRVS") ==> rrvsOK(args["RRVS"]) && $2.RequireRecipientValidSince == rrvsVal(args["RRVS"])) && (!has(args, "RRVS") ==> $2.RequireRecipientValidSince == zeroof("time.Time"))
+//@   before Session.Rcpt: @C11,C14 notify-is-the-upper-cased-list-or-empty: (has(args, "NOTIFY") ==> notifyIs($2.Notify, args["NOTIFY"]) && notifySetOK($2.Notify)) && (!has(args, "NOTIFY") ==> len($2.Notify) == 0)
+//@   before Session.Rcpt: @C11,C14 only-known-parameters: forall k: string :: has(args, k) ==> k == "NOTIFY" || k == "ORCPT" || k == "RRVS"
 //@   loop 1:
 //@     invariant opts != nil && !old(alloc(opts))
 //@     invariant c.replies == old(c.replies) && c.cbRcpt == old(c.cbRcpt)
-//@     invariant @C11 orcpt: (itvisited("ORCPT") ==> taOK(args["ORCPT"]) && opts.OriginalRecipientType == taType(args["ORCPT"]) && opts.OriginalRecipient == taAddr(args["ORCPT"]) && taAddr(args["ORCPT"]) != "") && (!itvisited("ORCPT") ==> opts.OriginalRecipientType == "" && opts.OriginalRecipient == "")
-//@     invariant @C11 rrvs: (itvisited("RRVS") ==> rrvsOK(args["RRVS"]) && opts.RequireRecipientValidSince == rrvsVal(args["RRVS"])) && (!itvisited("RRVS") ==> opts.RequireRecipientValidSince == zeroof("time.Time"))
-//@     invariant @C11 notify: (itvisited("NOTIFY") ==> notifyIs(opts.Notify, args["NOTIFY"]) && notifySetOK(opts.Notify)) && (!itvisited("NOTIFY") ==> len(opts.Notify) == 0)
-//@     invariant @C11 known: forall k: string :: itvisited(k) ==> k == "NOTIFY" || k == "ORCPT" || k == "RRVS"
+//@     invariant @C11,C14 orcpt: (itvisited("ORCPT") ==> taOK(args["ORCPT"]) && opts.OriginalRecipientType == taType(args["ORCPT"]) && opts.OriginalRecipient == taAddr(args["ORCPT"]) && taAddr(args["ORCPT"]) != "") && (!itvisited("ORCPT") ==> opts.OriginalRecipientType == "" && opts.OriginalRecipient == "")
+//@     invariant @C11,C14 rrvs: (itvisited("RRVS") ==> rrvsOK(args["RRVS"]) && opts.RequireRecipientValidSince == rrvsVal(args["RRVS"])) && (!itvisited("RRVS") ==> opts.RequireRecipientValidSince == zeroof("time.Time"))
+//@     invariant @C11,C14 notify: (itvisited("NOTIFY") ==> notifyIs(opts.Notify, args["NOTIFY"]) && notifySetOK(opts.Notify)) && (!itvisited("NOTIFY") ==> len(opts.Notify) == 0)
+//@     invariant @C11,C14 known: forall k: string :: itvisited(k) ==> k == "NOTIFY" || k == "ORCPT" || k == "RRVS"
 //@     invariant args != nil && (forall k: string :: itvisited(k) ==> has(args, k))
 //@     invariant @C12 only-enabled-extensions: len(opts.Notify) > 0 || opts.OriginalRecipient != "" || opts.OriginalRecipientType != "" ==> c.server.EnableDSN
 //@   loop 2:
 //@     invariant arrOf(notify) == 0 || !old(alloc(arrOf(notify)))
 //@     invariant arrOf(notify) != arrOf(resultof("strings.Split", 1, 1)) && len(resultof("strings.Split", 1, 1)) == splitLen(value, ",", -1) && (forall i :: 0 <= i && i < len(resultof("strings.Split", 1, 1)) ==> resultof("strings.Split", 1, 1)[i] == splitAt(value, ",", -1, i))
-//@     invariant @C11 notify-so-far: rangeindex + 1 <= len(resultof("strings.Split", 1, 1)) && len(notify) == rangeindex + 1 && (forall j :: 0 <= j && j < len(notify) ==> notify[j] == upperOf(splitAt(value, ",", -1, j)))
+//@     invariant @C11,C14 notify-so-far: rangeindex + 1 <= len(resultof("strings.Split", 1, 1)) && len(notify) == rangeindex + 1 && (forall j :: 0 <= j && j < len(notify) ==> notify[j] == upperOf(splitAt(value, ",", -1, j)))
 
 // Parser entry points as seen by the handlers (their own obligations: section "parsing")
 //@ contract (*parser).parseReversePath(p) (s, err)
@@ -320,7 +321,7 @@ package smtp
 //@   ensures c.text.R.pos >= old(c.text.R.pos) && c.readErr == (old(c.readErr) || err != nil)
 
 //@ contract (*Conn).handleStartTLS(c)
-//@   prop C03 C08 C09 C10
+//@   prop C03 C08 C09 C10 C12
 //@   requires connInv(c) && !c.closed
 //@   modifies c.conn, c.text, c.lineLimitReader, c.session, c.helo, c.didAuth, c.bdatPipe, c.bdatStatus, c.bytesReceived, c.fromReceived, c.recipients, c.replies, c.finals, c.lastCode, c.cbLogout, c.cbReset, c.bdatPipe.state, c.session.loggedOut
 //@   ensures inv: connInv(c) && !c.closed
@@ -423,7 +424,7 @@ package smtp
 //@   ensures @C05 chunk-consumed: c.text.R.pos == old(c.text.R.pos) + size || c.text.R.iofail
 //@   ensures @C19 limit-restored: c.lineLimitReader.LineLimit == c.server.MaxLineLength
 //@   ensures c.text.R.pos >= old(c.text.R.pos)
-//@   before io.Copy: @C05,C19 no-line-limit-on-chunk-octets: c.lineLimitReader.LineLimit == 0
+//@   before io.Copy: @C05,C19,C04 no-line-limit-on-chunk-octets: c.lineLimitReader.LineLimit == 0
 
 //@ contract (*Conn).handleBdat(c, arg)
 //@   prop C03 C04 C05 C06 C07 C08 C19
@@ -436,7 +437,7 @@ package smtp
 //@   recv 2: @C13 status-of-the-recipient-being-answered: $ch == c.bdatStatus.status[rangeindex + 1]
 //@   before (*io.PipeWriter).Close: @C07,C05 clean-eof-only-after-complete-last-chunk: last && lrOf(chunk).N == 0
 //@   ensures inv: connInv(c)
-//@   before io.Copy: @C05,C19 no-line-limit-on-chunk-octets: c.lineLimitReader.LineLimit == 0
+//@   before io.Copy: @C05,C19,C04 no-line-limit-on-chunk-octets: c.lineLimitReader.LineLimit == 0
 //@   ensures @C19,C05 line-limit-restored: c.lineLimitReader.LineLimit == c.server.MaxLineLength && c.lineLimitReader == old(c.lineLimitReader)
 //@   ensures @C05 framing: bdatDeclaredOK(arg) ==> c.text.R.pos == old(c.text.R.pos) + bdatDeclared(arg) || c.text.R.iofail
 //@   ensures @C05 nothing-read-for-malformed-command: !bdatDeclaredOK(arg) ==> c.text.R.pos == old(c.text.R.pos)
@@ -535,6 +536,7 @@ package smtp
 //@   requires c != nil && c.text != nil
 //@   modifies c.text.Reader.resps
 //@   ensures c.text.Reader.resps == old(c.text.Reader.resps) + 1
+//@   ensures @C09 code-of-the-reply-just-read: c.text.Reader.lastCode == code
 
 //@ contract (*Client).cmd(c, expectCode, format, args) (code, msg, err)
 //@   prop C15
@@ -543,6 +545,7 @@ package smtp
 //@   modifies c.text.cmds, c.text.Reader.resps
 //@   ensures @C15 one-line-written: c.text.cmds == old(c.text.cmds) + 1
 //@   ensures @C09,C16 reply-read-for-every-line-written: c.text.Reader.resps == old(c.text.Reader.resps) + 1 || (err != nil && c.text.Reader.resps == old(c.text.Reader.resps))
+//@   ensures @C09 code-of-the-reply-just-read: err == nil ==> c.text.Reader.lastCode == code
 
 //@ contract (*Client).greet(c) (err)
 //@   prop C15
@@ -722,8 +725,10 @@ package smtp
 //@   prop C09 C15
 //@   requires clientWF(c) && a != nil
 //@   modifies c.didGreet, c.greetError, c.didHello, c.helloError, c.ext, c.text.cmds, c.text.Reader.resps
+//@   ensures @C09 success-means-the-server-said-235: err == nil ==> c.text.Reader.lastCode == 235
 //@   loop 1:
 //@     invariant clientWF(c) && c.text == old(c.text)
+//@     invariant @C09 err == nil ==> code == c.text.Reader.lastCode
 //@     backedge @C09 in-step-with-the-server: err == nil ==> c.text.cmds - c.text.Reader.resps == head(c.text.cmds - c.text.Reader.resps)
 //@     backedge @C09 one-line-per-step: c.text.cmds == head(c.text.cmds) + 1
 
